@@ -269,6 +269,8 @@ def install(world):
                 return k == "FNode"
             if q.startswith("pysmt.typing."):
                 nm = q.rsplit(".", 1)[1]
+                if isinstance(v, Obj):
+                    return q in W.repo.mro(v.cls)       # a type object executed from the source of pysmt/typing.py
                 if k != "PySMTType":
                     return False
                 if nm == "PySMTType":
@@ -448,7 +450,18 @@ def install(world):
             return S.nid(v)
         raise Unsupported("id() of non-node")
     reg("id", b_id)
-    reg("hash", lambda ex, a, kw: S.nid(a[0]) if is_node(a[0]) else Opaque("hash"))
+    _strhash = z3.Function("str_hash", z3.StringSort(), z3.IntSort())      # hash() of a string: a function of its value
+
+    def b_hash(ex, a, kw):
+        v = a[0]
+        if is_node(v):
+            return S.nid(v)
+        if isinstance(v, str):
+            return _strhash(z3.StringVal(v))
+        if is_z3(v) and v.sort() == z3.StringSort():
+            return _strhash(v)
+        return Opaque("hash")
+    reg("hash", b_hash)
     reg("print", lambda ex, a, kw: None)
 
     def b_floor(ex, a, kw, ceil=False):
